@@ -135,4 +135,1031 @@ theorem litUuidP_valid {cs u r : Str} (h : litUuidP cs = some (u, r)) : ValidUui
 /-! ### string literals -/
 
 
+/-! ### lines -/
+
+theorem mem_trimEnd {s : Str} {c : Char} (h : c ∈ trimEnd s) : c ∈ s := by
+  unfold trimEnd at h
+  have := (List.dropWhile_sublist isWs (l := s.reverse)).subset (List.mem_reverse.mp h)
+  exact List.mem_reverse.mp this
+
+theorem dropWhile_append_all {p : Char → Bool} : ∀ (l1 l2 : Str), (∀ c ∈ l1, p c = true) → (l1 ++ l2).dropWhile p = l2.dropWhile p
+  | [], l2, _ => rfl
+  | c :: l1, l2, h => by
+    simp only [List.cons_append, List.dropWhile, h c (by simp)]
+    exact dropWhile_append_all l1 l2 (fun d hd => h d (by simp [hd]))
+
+theorem trimEnd_append_allws (s t : Str) (ht : ∀ c ∈ t, isWs c = true) : trimEnd (s ++ t) = trimEnd s := by
+  unfold trimEnd
+  rw [List.reverse_append, dropWhile_append_all _ _ (fun c hc => ht c (List.mem_reverse.mp hc))]
+
+/-- a line as `lineTail` cuts it: text without a line feed, then the line end (if any) -/
+theorem lineTail_shape : ∀ (cs a b : Str), lineTail cs = (a, b) →
+    ∃ body term, a = body ++ term ∧ '\n' ∉ body ∧ ∀ c ∈ term, isWs c = true
+  | [], a, b, h => by simp [lineTail] at h; exact ⟨[], [], by simp [h.1], by simp, by simp⟩
+  | c :: r, a, b, h => by
+    by_cases h1 : c = '\n'
+    · subst h1
+      simp [lineTail] at h
+      exact ⟨[], ['\n'], by simp [h.1], by simp, by simp [isWs]⟩
+    · by_cases h2 : c = '\r' ∧ ∃ r', r = '\n' :: r'
+      · obtain ⟨rfl, r', rfl⟩ := h2
+        simp [lineTail] at h
+        exact ⟨[], ['\r', '\n'], by simp [h.1], by simp, by intro c hc; simp at hc; rcases hc with rfl | rfl <;> simp [isWs]⟩
+      · have hstep : lineTail (c :: r) = (c :: (lineTail r).1, (lineTail r).2) := by
+          rw [lineTail]
+          · intro hc; exact h1 hc
+          · intro r' hc hr; exact h2 ⟨hc, r', hr⟩
+        rw [hstep] at h
+        simp only [Prod.mk.injEq] at h
+        obtain ⟨body, term, hb, hn, ht⟩ := lineTail_shape r _ _ rfl
+        refine ⟨c :: body, term, ?_, ?_, ht⟩
+        · rw [← h.1, hb]; simp
+        · simp only [List.mem_cons, not_or]
+          exact ⟨fun hc => h1 hc.symm, hn⟩
+
+theorem inner_no_newline (k : Nat) (body term : Str) (hn : '\n' ∉ body) (ht : ∀ c ∈ term, isWs c = true) :
+    '\n' ∉ inner k (body ++ term) := by
+  unfold inner
+  -- after dropping and stripping the text still is "no line feed, then white space"
+  have hshape : ∀ x : Str, (∃ b t, x = b ++ t ∧ '\n' ∉ b ∧ ∀ c ∈ t, isWs c = true) → '\n' ∉ trimEnd x := by
+    rintro x ⟨b, t, rfl, hb, ht'⟩ hmem
+    rw [trimEnd_append_allws _ _ ht'] at hmem
+    exact hb (mem_trimEnd hmem)
+  apply hshape
+  have hdrop : ∃ b t, (body ++ term).drop k = b ++ t ∧ '\n' ∉ b ∧ ∀ c ∈ t, isWs c = true := by
+    by_cases hk : k ≤ body.length
+    · exact ⟨body.drop k, term, by rw [List.drop_append_of_le_length hk], fun h => hn (List.mem_of_mem_drop h), ht⟩
+    · refine ⟨[], (body ++ term).drop k, by simp, by simp, ?_⟩
+      intro c hc
+      have hc' := List.mem_of_mem_drop hc
+      have : (body ++ term).drop k = term.drop (k - body.length) := by
+        have hk' : k = body.length + (k - body.length) := by omega
+        rw [hk', List.drop_append]; simp
+      rw [this] at hc
+      exact ht c (List.mem_of_mem_drop hc)
+  obtain ⟨b, t, hbt, hb, ht'⟩ := hdrop
+  rw [hbt]
+  cases b with
+  | nil =>
+    cases t with
+    | nil => exact ⟨[], [], by simp, by simp, by simp⟩
+    | cons c t =>
+      simp only [List.nil_append]
+      split
+      · rename_i r heq
+        simp only [List.cons.injEq] at heq
+        exact ⟨[], r, by simp, by simp, fun d hd => ht' d (by rw [← heq.2] at hd; simp [hd])⟩
+      · exact ⟨[], c :: t, by simp, by simp, ht'⟩
+  | cons c b =>
+    simp only [List.cons_append]
+    split
+    · rename_i r heq
+      simp only [List.cons.injEq] at heq
+      refine ⟨b, t, heq.2.symm, ?_, ht'⟩
+      intro h; exact hb (by simp [h])
+    · exact ⟨c :: b, t, by simp, hb, ht'⟩
+
+theorem commentP_valid {cs l r : Str} (h : commentP cs = some (l, r)) : '\n' ∉ inner 2 l := by
+  unfold commentP at h
+  split at h
+  · simp at h
+  · split at h
+    · simp only [Option.some.injEq, Prod.mk.injEq] at h
+      obtain ⟨body, term, hb, hn, ht⟩ := lineTail_shape cs _ _ rfl
+      rw [← h.1, hb]; exact inner_no_newline 2 body term hn ht
+    · simp at h
+
+theorem docP_valid {cs l r : Str} (h : docP cs = some (l, r)) : '\n' ∉ inner 3 l := by
+  unfold docP at h
+  split at h
+  · simp only [Option.some.injEq, Prod.mk.injEq] at h
+    obtain ⟨body, term, hb, hn, ht⟩ := lineTail_shape cs _ _ rfl
+    rw [← h.1, hb]; exact inner_no_newline 3 body term hn ht
+  · simp at h
+
+theorem docInlineP_valid {cs l r : Str} (h : docInlineP cs = some (l, r)) : '\n' ∉ inner 3 l := by
+  unfold docInlineP at h
+  split at h
+  · simp only [Option.some.injEq, Prod.mk.injEq] at h
+    obtain ⟨body, term, hb, hn, ht⟩ := lineTail_shape cs _ _ rfl
+    rw [← h.1, hb]; exact inner_no_newline 3 body term hn ht
+  · simp at h
+
+
+/-! ### references and types -/
+
+theorem identP_split {cs n r : Str} (h : identP cs = some (n, r)) : cs = n ++ r := by
+  unfold identP at h
+  cases cs with
+  | nil => simp at h
+  | cons c t =>
+    simp only at h
+    split at h
+    · simp only [Option.some.injEq, Prod.mk.injEq] at h
+      obtain ⟨rfl, rfl⟩ := h
+      simp [List.takeWhile_append_dropWhile]
+    · simp at h
+
+theorem namedRefP_valid {cs r : Str} {n : NamedRef} (h : namedRefP cs = some (n, r)) : ValidRef n ∧ n.head <+: cs := by
+  unfold namedRefP at h
+  cases hi : identP cs with
+  | none => simp [hi] at h
+  | some x =>
+    obtain ⟨a, r1⟩ := x
+    have ha := identP_valid hi
+    have hp : a <+: cs := ⟨r1, (identP_split hi).symm⟩
+    simp only [hi] at h
+    split at h
+    · split at h
+      · rename_i b r3 hb
+        simp only [Option.some.injEq, Prod.mk.injEq] at h
+        obtain ⟨rfl, _⟩ := h
+        exact ⟨⟨ha, identP_valid hb⟩, hp⟩
+      · simp only [Option.some.injEq, Prod.mk.injEq] at h
+        obtain ⟨rfl, _⟩ := h
+        exact ⟨ha, hp⟩
+    · simp only [Option.some.injEq, Prod.mk.injEq] at h
+      obtain ⟨rfl, _⟩ := h
+      exact ⟨ha, hp⟩
+
+theorem arrayLenP_valid {cs r : Str} {l : ArrayLen} (h : arrayLenP cs = some (l, r)) : ValidLen l := by
+  unfold arrayLenP at h
+  split at h
+  · rename_i v r' hv
+    simp only [Option.some.injEq, Prod.mk.injEq] at h
+    obtain ⟨rfl, _⟩ := h
+    exact litIntP_valid hv
+  · simp only [Option.map_eq_some_iff] at h
+    obtain ⟨⟨n, r'⟩, hn, he⟩ := h
+    simp only [Prod.mk.injEq] at he
+    obtain ⟨rfl, _⟩ := he
+    exact (namedRefP_valid hn).1
+
+theorem firstPrim_none_of {ps : List Prim} {cs : Str} (h : firstPrim ps cs = none) : ∀ p ∈ ps, kw p.kwText cs = none := by
+  induction ps with
+  | nil => simp
+  | cons p ps ih =>
+    unfold firstPrim at h
+    split at h
+    · simp at h
+    · rename_i hk
+      intro q hq
+      rcases List.mem_cons.1 hq with rfl | hq
+      · exact hk
+      · exact ih h q hq
+
+theorem kw_none_not_prefix {k cs : Str} (h : kw k cs = none) : ¬ k <+: cs := by
+  unfold kw lit at h
+  split at h
+  · simp at h
+  · rename_i hp
+    intro hpre
+    exact hp (List.isPrefixOf_iff_prefix.mpr hpre)
+
+theorem orElse_some {α : Type} {a b : Option α} {x : α} (h : (a <|> b) = some x) : a = some x ∨ (a = none ∧ b = some x) := by
+  cases a <;> simp_all
+
+theorem generic1P_valid {rec : P TypeName} {k : Str} {mk : TypeName → TypeName} {cs r : Str} {t : TypeName}
+    (hrec : ∀ cs t r, rec cs = some (t, r) → ValidType t) (hmk : ∀ t, ValidType t → ValidType (mk t))
+    (h : generic1P rec k mk cs = some (t, r)) : ValidType t := by
+  unfold generic1P at h
+  repeat' split at h
+  all_goals (try (simp at h; done))
+  simp only [Option.some.injEq, Prod.mk.injEq] at h
+  obtain ⟨rfl, _⟩ := h
+  exact hmk _ (hrec _ _ _ (by assumption))
+
+theorem generic2P_valid {rec : P TypeName} {k sep : Str} {mk : TypeName → TypeName → TypeName} {cs r : Str} {t : TypeName}
+    (hrec : ∀ cs t r, rec cs = some (t, r) → ValidType t) (hmk : ∀ a b, ValidType a → ValidType b → ValidType (mk a b))
+    (h : generic2P rec k sep mk cs = some (t, r)) : ValidType t := by
+  unfold generic2P at h
+  repeat' split at h
+  all_goals (try (simp at h; done))
+  simp only [Option.some.injEq, Prod.mk.injEq] at h
+  obtain ⟨rfl, _⟩ := h
+  exact hmk _ _ (hrec _ _ _ (by assumption)) (hrec _ _ _ (by assumption))
+
+theorem arrayP_valid {rec : P TypeName} {cs r : Str} {t : TypeName}
+    (hrec : ∀ cs t r, rec cs = some (t, r) → ValidType t) (h : arrayP rec cs = some (t, r)) : ValidType t := by
+  unfold arrayP at h
+  repeat' split at h
+  all_goals (try (simp at h; done))
+  simp only [Option.some.injEq, Prod.mk.injEq] at h
+  obtain ⟨rfl, _⟩ := h
+  exact ⟨hrec _ _ _ (by assumption), arrayLenP_valid (by assumption)⟩
+
+
+theorem orElse_none {α : Type} {a b : Option α} (h : (a <|> b) = none) : a = none ∧ b = none := by
+  cases a <;> simp_all
+
+theorem primKwP_kw_none {p : Prim} {cs : Str} (h : primKwP p cs = none) : kw p.kwText cs = none := by
+  unfold primKwP at h
+  cases hk : kw p.kwText cs <;> simp_all
+
+theorem typeNameP_valid : ∀ (fuel : Nat) (cs : Str) (t : TypeName) (r : Str), typeNameP fuel cs = some (t, r) → ValidType t
+  | 0, cs, t, r, h => by simp [typeNameP] at h
+  | fuel + 1, cs, t, r, h => by
+    have ih := typeNameP_valid fuel
+    have g1 : ∀ {k : Str} {mk : TypeName → TypeName} (_ : ∀ t, ValidType t → ValidType (mk t)) {cs r t},
+        generic1P (typeNameP fuel) k mk cs = some (t, r) → ValidType t :=
+      fun hmk _ _ _ hg => generic1P_valid ih hmk hg
+    unfold typeNameP at h
+    have hprim : ∀ {p : Prim} {cs r t}, primKwP p cs = some (t, r) → ValidType t := by
+      intro p cs r t hp
+      unfold primKwP at hp
+      simp only [Option.map_eq_some_iff] at hp
+      obtain ⟨⟨u, r'⟩, _, he⟩ := hp
+      simp only [Prod.mk.injEq] at he
+      obtain ⟨rfl, _⟩ := he
+      trivial
+    rcases orElse_some h with h | ⟨hfirst, h⟩
+    · simp only [Option.map_eq_some_iff] at h
+      obtain ⟨⟨p, r'⟩, _, he⟩ := h
+      simp only [Prod.mk.injEq] at he
+      obtain ⟨rfl, _⟩ := he
+      trivial
+    rcases orElse_some h with h | ⟨_, h⟩
+    · exact generic1P_valid ih (by intro t ht; exact ht) h
+    rcases orElse_some h with h | ⟨_, h⟩
+    · exact generic1P_valid ih (by intro t ht; exact ht) h
+    rcases orElse_some h with h | ⟨_, h⟩
+    · exact generic1P_valid ih (by intro t ht; exact ht) h
+    rcases orElse_some h with h | ⟨hbytes, h⟩
+    · exact hprim h
+    rcases orElse_some h with h | ⟨_, h⟩
+    · exact generic2P_valid ih (by intro a b ha hb; exact ⟨ha, hb⟩) h
+    rcases orElse_some h with h | ⟨_, h⟩
+    · exact generic1P_valid ih (by intro t ht; exact ht) h
+    rcases orElse_some h with h | ⟨_, h⟩
+    · exact generic1P_valid ih (by intro t ht; exact ht) h
+    rcases orElse_some h with h | ⟨_, h⟩
+    · exact generic1P_valid ih (by intro t ht; exact ht) h
+    rcases orElse_some h with h | ⟨hlife, h⟩
+    · exact hprim h
+    rcases orElse_some h with h | ⟨hunit, h⟩
+    · exact hprim h
+    rcases orElse_some h with h | ⟨_, h⟩
+    · exact generic2P_valid ih (by intro a b ha hb; exact ⟨ha, hb⟩) h
+    rcases orElse_some h with h | ⟨_, h⟩
+    · exact arrayP_valid ih h
+    -- a reference: no keyword is a prefix of the input, hence none of the name
+    simp only [Option.map_eq_some_iff] at h
+    obtain ⟨⟨n, r'⟩, hn', he⟩ := h
+    simp only [Prod.mk.injEq] at he
+    obtain ⟨rfl, _⟩ := he
+    obtain ⟨hv, hpre⟩ := namedRefP_valid hn'
+    refine ⟨hv, ?_⟩
+    have hfp : firstPrim primsA cs = none := by
+      cases hf : firstPrim primsA cs <;> simp_all
+    have hA := firstPrim_none_of hfp
+    intro p hp hpp
+    have hkw : kw p.kwText cs = none := by
+      simp only [allPrims, List.mem_cons, List.not_mem_nil, or_false] at hp
+      rcases hp with rfl | rfl | rfl | rfl | rfl | rfl | rfl | rfl | rfl | rfl | rfl | rfl | rfl | rfl | rfl | rfl | rfl | rfl | rfl
+      all_goals first
+        | exact hA _ (by decide)
+        | exact primKwP_kw_none hbytes
+        | exact primKwP_kw_none hlife
+        | exact primKwP_kw_none hunit
+    exact kw_none_not_prefix hkw (hpp.trans hpre)
+
+
+/-! ### attributes and preludes -/
+
+theorem commaIdentP_valid {cs n r : Str} (h : commaIdentP cs = some (n, r)) : ValidIdent n := by
+  unfold commaIdentP at h
+  split at h
+  · simp at h
+  · exact identP_valid h
+
+theorem attrOptionsP_valid {fuel : Nat} {cs r : Str} {os : List Str} (h : attrOptionsP fuel cs = some (os, r)) :
+    ∀ o ∈ os, ValidIdent o := by
+  unfold attrOptionsP at h
+  split at h
+  · rename_i x hx
+    simp only [Option.some.injEq] at h
+    subst h
+    unfold attrOptionsInnerP at hx
+    split at hx
+    · simp at hx
+    · split at hx
+      · simp at hx
+      · rename_i a r2 ha
+        simp only at hx
+        split at hx
+        · simp at hx
+        · simp only [Option.some.injEq, Prod.mk.injEq] at hx
+          obtain ⟨rfl, _⟩ := hx
+          intro o ho
+          rcases List.mem_cons.1 ho with rfl | ho
+          · exact identP_valid ha
+          · exact many_forall commaIdentP ValidIdent (fun _ _ _ hc => commaIdentP_valid hc) _ _ o ho
+  · simp only [Option.some.injEq, Prod.mk.injEq] at h
+    obtain ⟨rfl, _⟩ := h
+    simp
+
+theorem attributeP_valid {inline : Bool} {fuel : Nat} {cs r : Str} {a : Attribute} (h : attributeP inline fuel cs = some (a, r)) :
+    ValidAttr a := by
+  unfold attributeP at h
+  cases inline
+  · simp only [Option.bind_eq_bind, Option.bind_eq_some_iff, Prod.exists, Option.pure_def, Option.some.injEq, Prod.mk.injEq,
+      Bool.false_eq_true, if_false] at h
+    obtain ⟨_, r1, _, r2, _, _, r3, _, name, r4, hname, opts, r5, hopts, _, r6, _, rfl, _⟩ := h
+    exact ⟨identP_valid hname, attrOptionsP_valid hopts⟩
+  · simp only [Option.bind_eq_bind, Option.bind_eq_some_iff, Prod.exists, Option.pure_def, Option.some.injEq, Prod.mk.injEq,
+      if_true, Option.map_eq_some_iff] at h
+    obtain ⟨_, r1, _, r2, _, _, r3, _, name, r4, hname, opts, r5, hopts, _, r6, _, rfl, _⟩ := h
+    exact ⟨identP_valid hname, attrOptionsP_valid hopts⟩
+
+def PreItemValid : PreItem → Prop
+  | .comment l => '\n' ∉ inner 2 l
+  | .doc l => '\n' ∉ inner 3 l
+  | .attr a => ValidAttr a
+
+theorem preItemP_valid {c d a : Bool} {fuel : Nat} {cs r : Str} {x : PreItem} (h : preItemP c d a fuel cs = some (x, r)) :
+    PreItemValid x := by
+  unfold preItemP at h
+  split at h
+  · rename_i l r' hl
+    simp only [Option.some.injEq, Prod.mk.injEq] at h
+    obtain ⟨rfl, _⟩ := h
+    split at hl
+    · exact commentP_valid hl
+    · simp at hl
+  · split at h
+    · rename_i l r' hl
+      simp only [Option.some.injEq, Prod.mk.injEq] at h
+      obtain ⟨rfl, _⟩ := h
+      split at hl
+      · exact docP_valid hl
+      · simp at hl
+    · split at h
+      · simp only [Option.map_eq_some_iff] at h
+        obtain ⟨⟨at', r'⟩, ha, he⟩ := h
+        simp only [Prod.mk.injEq] at he
+        obtain ⟨rfl, _⟩ := he
+        exact attributeP_valid ha
+      · simp at h
+
+theorem inlinePreItemP_valid {fuel : Nat} {cs r : Str} {x : PreItem} (h : inlinePreItemP fuel cs = some (x, r)) :
+    PreItemValid x := by
+  unfold inlinePreItemP at h
+  split at h
+  · rename_i l r' hl
+    simp only [Option.some.injEq, Prod.mk.injEq] at h
+    obtain ⟨rfl, _⟩ := h
+    exact docInlineP_valid hl
+  · simp only [Option.map_eq_some_iff] at h
+    obtain ⟨⟨at', r'⟩, ha, he⟩ := h
+    simp only [Prod.mk.injEq] at he
+    obtain ⟨rfl, _⟩ := he
+    exact attributeP_valid ha
+
+theorem preComments_valid {l : List PreItem} (h : ∀ x ∈ l, PreItemValid x) : ValidLines 2 (preComments l) := by
+  intro c hc
+  simp only [preComments, List.mem_filterMap] at hc
+  obtain ⟨x, hx, he⟩ := hc
+  cases x <;> simp at he
+  subst he
+  exact h _ hx
+
+theorem preDocs_valid {l : List PreItem} (h : ∀ x ∈ l, PreItemValid x) : ValidLines 3 (preDocs l) := by
+  intro c hc
+  simp only [preDocs, List.mem_filterMap] at hc
+  obtain ⟨x, hx, he⟩ := hc
+  cases x <;> simp at he
+  subst he
+  exact h _ hx
+
+theorem preAttrs_valid {l : List PreItem} (h : ∀ x ∈ l, PreItemValid x) : ∀ a ∈ preAttrs l, ValidAttr a := by
+  intro c hc
+  simp only [preAttrs, List.mem_filterMap] at hc
+  obtain ⟨x, hx, he⟩ := hc
+  cases x <;> simp at he
+  subst he
+  exact h _ hx
+
+theorem preludeP_valid (c d a : Bool) (fuel : Nat) (cs : Str) : ∀ x ∈ (preludeP c d a fuel cs).1, PreItemValid x := by
+  unfold preludeP
+  exact many_forall _ PreItemValid (fun _ _ _ h => preItemP_valid h) _ _
+
+
+/-! ### fields, variants, fallbacks, bodies -/
+
+theorem nameIdP_valid {cs r name id : Str} (h : nameIdP cs = some ((name, id), r)) : ValidIdent name ∧ ValidInt id := by
+  unfold nameIdP at h
+  split at h
+  · simp at h
+  · rename_i n r1 hn
+    split at h
+    · simp at h
+    · split at h
+      · simp at h
+      · rename_i i r3 hi
+        simp only [Option.some.injEq, Prod.mk.injEq] at h
+        obtain ⟨⟨rfl, rfl⟩, _⟩ := h
+        exact ⟨identP_valid hn, litIntP_valid hi⟩
+
+theorem eqTypeP_valid {fuel : Nat} {cs r : Str} {t : TypeName} (h : eqTypeP fuel cs = some (t, r)) : ValidType t := by
+  unfold eqTypeP at h
+  split at h
+  · simp at h
+  · exact typeNameP_valid _ _ _ _ h
+
+theorem structFieldP_valid {fuel : Nat} {cs r : Str} {f : StructField} (h : structFieldP fuel cs = some (f, r)) : ValidField f := by
+  unfold structFieldP at h
+  simp only at h
+  split at h
+  · simp at h
+  · rename_i name id r1 hni
+    split at h
+    · simp at h
+    · rename_i ty r2 hty
+      split at h
+      · simp at h
+      · simp only [Option.some.injEq, Prod.mk.injEq] at h
+        obtain ⟨rfl, _⟩ := h
+        have hp := preludeP_valid true true false fuel cs
+        exact ⟨preComments_valid hp, preDocs_valid hp, (nameIdP_valid hni).1, (nameIdP_valid hni).2, eqTypeP_valid hty⟩
+
+theorem fallbackTailP_valid {cs r name : Str} (h : fallbackTailP cs = some (name, r)) : ValidIdent name := by
+  unfold fallbackTailP at h
+  split at h
+  · simp at h
+  · rename_i n r1 hn
+    repeat' split at h
+    all_goals (try (simp at h; done))
+    simp only [Option.some.injEq, Prod.mk.injEq] at h
+    obtain ⟨rfl, _⟩ := h
+    exact identP_valid hn
+
+theorem fallbackP_valid {fuel : Nat} {cs r : Str} {f : Fallback} (h : fallbackP fuel cs = some (f, r)) : ValidFallback f := by
+  unfold fallbackP at h
+  simp only at h
+  split at h
+  · simp at h
+  · rename_i name r1 hn
+    simp only [Option.some.injEq, Prod.mk.injEq] at h
+    obtain ⟨rfl, _⟩ := h
+    have hp := preludeP_valid true true false fuel cs
+    exact ⟨preComments_valid hp, preDocs_valid hp, fallbackTailP_valid hn⟩
+
+theorem enumVariantP_valid {fuel : Nat} {cs r : Str} {v : EnumVariant} (h : enumVariantP fuel cs = some (v, r)) : ValidVariant v := by
+  unfold enumVariantP at h
+  simp only at h
+  split at h
+  · simp at h
+  · rename_i name id r1 hni
+    split at h
+    · simp at h
+    · simp only [Option.some.injEq, Prod.mk.injEq] at h
+      obtain ⟨rfl, _⟩ := h
+      have hp := preludeP_valid true true false fuel cs
+      refine ⟨preComments_valid hp, preDocs_valid hp, (nameIdP_valid hni).1, (nameIdP_valid hni).2, ?_⟩
+      intro t ht
+      simp only at ht
+      split at ht
+      · rename_i t' r' hty
+        simp only [Option.some.injEq] at ht
+        subst ht
+        exact eqTypeP_valid hty
+      · simp at ht
+
+theorem bodyP_valid {α : Type} {item : Nat → P α} {Q : α → Prop} (hitem : ∀ fuel cs a r, item fuel cs = some (a, r) → Q a)
+    {fuel : Nat} {cs r : Str} {items : List α} {fb : Option Fallback} (h : bodyP item fuel cs = some ((items, fb), r)) :
+    (∀ a ∈ items, Q a) ∧ (∀ f, fb = some f → ValidFallback f) := by
+  unfold bodyP at h
+  simp only at h
+  split at h
+  · simp at h
+  · simp only [Option.some.injEq, Prod.mk.injEq] at h
+    obtain ⟨⟨rfl, rfl⟩, _⟩ := h
+    refine ⟨many_forall _ Q (fun _ _ _ hh => hitem _ _ _ _ hh) _ _, ?_⟩
+    intro f hf
+    split at hf
+    · rename_i f' r' hfb
+      simp only [Option.some.injEq] at hf
+      subst hf
+      exact fallbackP_valid hfb
+    · simp at hf
+
+theorem inlineOpenP_valid {k : Str} {fuel : Nat} {cs r : Str} {pre : List PreItem} (h : inlineOpenP k fuel cs = some (pre, r)) :
+    ∀ x ∈ pre, PreItemValid x := by
+  unfold inlineOpenP at h
+  split at h
+  · simp at h
+  · split at h
+    · simp at h
+    · simp only [Option.some.injEq, Prod.mk.injEq] at h
+      obtain ⟨rfl, _⟩ := h
+      exact many_forall _ PreItemValid (fun _ _ _ hh => inlinePreItemP_valid hh) _ _
+
+theorem inlineStructP_valid {fuel : Nat} {cs r : Str} {s : InlineStruct} (h : inlineStructP fuel cs = some (s, r)) :
+    ValidInlineStruct s := by
+  unfold inlineStructP at h
+  split at h
+  · simp at h
+  · rename_i pre r1 hpre
+    split at h
+    · simp at h
+    · rename_i fields fb r2 hb
+      simp only [Option.some.injEq, Prod.mk.injEq] at h
+      obtain ⟨rfl, _⟩ := h
+      have hp := inlineOpenP_valid hpre
+      obtain ⟨hf, hfb⟩ := bodyP_valid (Q := ValidField) (fun _ _ _ _ hh => structFieldP_valid hh) hb
+      exact ⟨preDocs_valid hp, preAttrs_valid hp, hf, hfb⟩
+
+theorem inlineEnumP_valid {fuel : Nat} {cs r : Str} {s : InlineEnum} (h : inlineEnumP fuel cs = some (s, r)) :
+    ValidInlineEnum s := by
+  unfold inlineEnumP at h
+  split at h
+  · simp at h
+  · rename_i pre r1 hpre
+    split at h
+    · simp at h
+    · rename_i vars fb r2 hb
+      simp only [Option.some.injEq, Prod.mk.injEq] at h
+      obtain ⟨rfl, _⟩ := h
+      have hp := inlineOpenP_valid hpre
+      obtain ⟨hf, hfb⟩ := bodyP_valid (Q := ValidVariant) (fun _ _ _ _ hh => enumVariantP_valid hh) hb
+      exact ⟨preDocs_valid hp, preAttrs_valid hp, hf, hfb⟩
+
+theorem typeTermP_valid {fuel : Nat} {cs r : Str} {t : TypeName} (h : typeTermP fuel cs = some (t, r)) : ValidType t := by
+  unfold typeTermP at h
+  split at h
+  · simp at h
+  · rename_i t' r1 ht
+    split at h
+    · simp at h
+    · simp only [Option.some.injEq, Prod.mk.injEq] at h
+      obtain ⟨rfl, _⟩ := h
+      exact typeNameP_valid _ _ _ _ ht
+
+theorem typeOrInlineP_valid {fuel : Nat} {cs r : Str} {t : TypeOrInline} (h : typeOrInlineP fuel cs = some (t, r)) : ValidInline t := by
+  unfold typeOrInlineP at h
+  split at h
+  · rename_i t' r1 ht
+    simp only [Option.some.injEq, Prod.mk.injEq] at h
+    obtain ⟨rfl, _⟩ := h
+    exact typeTermP_valid ht
+  · split at h
+    · rename_i s r1 hs
+      simp only [Option.some.injEq, Prod.mk.injEq] at h
+      obtain ⟨rfl, _⟩ := h
+      exact inlineStructP_valid hs
+    · simp only [Option.map_eq_some_iff] at h
+      obtain ⟨⟨e, r'⟩, he, heq⟩ := h
+      simp only [Prod.mk.injEq] at heq
+      obtain ⟨rfl, _⟩ := heq
+      exact inlineEnumP_valid he
+
+
+/-! ### definitions -/
+
+theorem headerP_valid {k : Str} {cs r name : Str} (h : headerP k cs = some (name, r)) : ValidIdent name := by
+  unfold headerP at h
+  split at h
+  · simp at h
+  · exact identP_valid h
+
+theorem defOpenP_valid {k : Str} {cs r name : Str} (h : defOpenP k cs = some (name, r)) : ValidIdent name := by
+  unfold defOpenP at h
+  split at h
+  · simp at h
+  · rename_i n r1 hn
+    split at h
+    · simp at h
+    · simp only [Option.some.injEq, Prod.mk.injEq] at h
+      obtain ⟨rfl, _⟩ := h
+      exact headerP_valid hn
+
+theorem structDefP_valid {fuel : Nat} {cs r : Str} {d : StructDef} (h : structDefP fuel cs = some (d, r)) : ValidStruct d := by
+  unfold structDefP at h
+  simp only at h
+  split at h
+  · simp at h
+  · rename_i name r1 hn
+    split at h
+    · simp at h
+    · rename_i fields fb r2 hb
+      simp only [Option.some.injEq, Prod.mk.injEq] at h
+      obtain ⟨rfl, _⟩ := h
+      have hp := preludeP_valid true true true fuel cs
+      obtain ⟨hf, hfb⟩ := bodyP_valid (Q := ValidField) (fun _ _ _ _ hh => structFieldP_valid hh) hb
+      exact ⟨preComments_valid hp, preDocs_valid hp, preAttrs_valid hp, defOpenP_valid hn, hf, hfb⟩
+
+theorem enumDefP_valid {fuel : Nat} {cs r : Str} {d : EnumDef} (h : enumDefP fuel cs = some (d, r)) : ValidEnum d := by
+  unfold enumDefP at h
+  simp only at h
+  split at h
+  · simp at h
+  · rename_i name r1 hn
+    split at h
+    · simp at h
+    · rename_i vars fb r2 hb
+      simp only [Option.some.injEq, Prod.mk.injEq] at h
+      obtain ⟨rfl, _⟩ := h
+      have hp := preludeP_valid true true true fuel cs
+      obtain ⟨hf, hfb⟩ := bodyP_valid (Q := ValidVariant) (fun _ _ _ _ hh => enumVariantP_valid hh) hb
+      exact ⟨preComments_valid hp, preDocs_valid hp, preAttrs_valid hp, defOpenP_valid hn, hf, hfb⟩
+
+/-! ### services -/
+
+theorem kwEqInlineP_valid {k : Str} {fuel : Nat} {cs r : Str} {t : TypeOrInline} (h : kwEqInlineP k fuel cs = some (t, r)) :
+    ValidInline t := by
+  unfold kwEqInlineP at h
+  split at h
+  · simp at h
+  · split at h
+    · simp at h
+    · exact typeOrInlineP_valid h
+
+theorem fnPartP_valid {k : Str} {fuel : Nat} {cs r : Str} {p : FnPart} (h : fnPartP k fuel cs = some (p, r)) : ValidPart p := by
+  unfold fnPartP at h
+  simp only at h
+  split at h
+  · simp at h
+  · rename_i t r1 ht
+    simp only [Option.some.injEq, Prod.mk.injEq] at h
+    obtain ⟨rfl, _⟩ := h
+    exact ⟨preComments_valid (preludeP_valid true false false fuel cs), kwEqInlineP_valid ht⟩
+
+theorem optP_valid {α : Type} {p : P α} {Q : α → Prop} (hp : ∀ cs a r, p cs = some (a, r) → Q a) (cs : Str) :
+    ∀ a, (optP p cs).1 = some a → Q a := by
+  intro a ha
+  unfold optP at ha
+  split at ha
+  · rename_i a' r' hpa
+    simp only [Option.some.injEq] at ha
+    subst ha
+    exact hp _ _ _ hpa
+  · simp at ha
+
+theorem eqInlineP_valid {fuel : Nat} {cs r : Str} {t : TypeOrInline} (h : eqInlineP fuel cs = some (t, r)) : ValidInline t := by
+  unfold eqInlineP at h
+  split at h
+  · simp at h
+  · exact typeOrInlineP_valid h
+
+theorem fnBodyP_valid {fuel : Nat} {cs r : Str} {a o e : Option FnPart} (h : fnBodyP fuel cs = some ((a, o, e), r)) :
+    (∀ p, a = some p → ValidPart p) ∧ (∀ p, o = some p → ValidPart p) ∧ (∀ p, e = some p → ValidPart p) := by
+  unfold fnBodyP at h
+  split at h
+  · rename_i x hx
+    simp only [Option.some.injEq] at h
+    subst h
+    unfold fnBodyFullP at hx
+    split at hx
+    · simp at hx
+    · simp only at hx
+      split at hx
+      · simp at hx
+      · simp only [Option.some.injEq, Prod.mk.injEq] at hx
+        obtain ⟨⟨rfl, rfl, rfl⟩, _⟩ := hx
+        exact ⟨optP_valid (fun _ _ _ hh => fnPartP_valid hh) _, optP_valid (fun _ _ _ hh => fnPartP_valid hh) _,
+          optP_valid (fun _ _ _ hh => fnPartP_valid hh) _⟩
+  · split at h
+    · rename_i t r1 ht
+      simp only [Option.some.injEq, Prod.mk.injEq] at h
+      obtain ⟨⟨rfl, rfl, rfl⟩, _⟩ := h
+      refine ⟨by simp, ?_, by simp⟩
+      intro p hp
+      simp only [Option.some.injEq] at hp
+      subst hp
+      exact ⟨by intro l hl; simp at hl, eqInlineP_valid ht⟩
+    · simp only [Option.map_eq_some_iff] at h
+      obtain ⟨⟨u, r'⟩, _, heq⟩ := h
+      simp only [Prod.mk.injEq] at heq
+      obtain ⟨⟨rfl, rfl, rfl⟩, _⟩ := heq
+      simp
+
+theorem itemHeadP_valid {k : Str} {cs r name id : Str} (h : itemHeadP k cs = some ((name, id), r)) : ValidIdent name ∧ ValidInt id := by
+  unfold itemHeadP at h
+  split at h
+  · simp at h
+  · split at h
+    · simp at h
+    · rename_i x r1 hx
+      simp only [Option.some.injEq, Prod.mk.injEq] at h
+      obtain ⟨rfl, _⟩ := h
+      exact nameIdP_valid hx
+
+theorem fnDefP_valid {fuel : Nat} {cs r : Str} {f : FnDef} (h : fnDefP fuel cs = some (f, r)) : ValidFn f := by
+  unfold fnDefP at h
+  simp only at h
+  split at h
+  · simp at h
+  · rename_i name id r1 hh
+    split at h
+    · simp at h
+    · rename_i a o e r2 hb
+      simp only [Option.some.injEq, Prod.mk.injEq] at h
+      obtain ⟨rfl, _⟩ := h
+      have hp := preludeP_valid true true false fuel cs
+      obtain ⟨ha, ho, he⟩ := fnBodyP_valid hb
+      exact ⟨preComments_valid hp, preDocs_valid hp, (itemHeadP_valid hh).1, (itemHeadP_valid hh).2, ha, ho, he⟩
+
+theorem eventDefP_valid {fuel : Nat} {cs r : Str} {e : EventDef} (h : eventDefP fuel cs = some (e, r)) : ValidEvent e := by
+  unfold eventDefP at h
+  simp only at h
+  split at h
+  · simp at h
+  · rename_i name id r1 hh
+    split at h
+    · simp at h
+    · rename_i ty r2 hb
+      simp only [Option.some.injEq, Prod.mk.injEq] at h
+      obtain ⟨rfl, _⟩ := h
+      have hp := preludeP_valid true true false fuel cs
+      refine ⟨preComments_valid hp, preDocs_valid hp, (itemHeadP_valid hh).1, (itemHeadP_valid hh).2, ?_⟩
+      intro t ht
+      simp only at ht
+      subst ht
+      unfold eventBodyP at hb
+      split at hb
+      · rename_i t' r' ht'
+        simp only [Option.some.injEq, Prod.mk.injEq] at hb
+        obtain ⟨rfl, _⟩ := hb
+        exact eqInlineP_valid ht'
+      · simp only [Option.map_eq_some_iff] at hb
+        obtain ⟨⟨u, r'⟩, _, heq⟩ := hb
+        simp at heq
+
+theorem serviceItemP_valid {fuel : Nat} {cs r : Str} {i : ServiceItem} (h : serviceItemP fuel cs = some (i, r)) : ValidItem i := by
+  unfold serviceItemP at h
+  split at h
+  · rename_i f r1 hf
+    simp only [Option.some.injEq, Prod.mk.injEq] at h
+    obtain ⟨rfl, _⟩ := h
+    exact fnDefP_valid hf
+  · simp only [Option.map_eq_some_iff] at h
+    obtain ⟨⟨e, r'⟩, he, heq⟩ := h
+    simp only [Prod.mk.injEq] at heq
+    obtain ⟨rfl, _⟩ := heq
+    exact eventDefP_valid he
+
+theorem itemFallbackP_valid {k : Str} {fuel : Nat} {cs r : Str} {f : Fallback} (h : itemFallbackP k fuel cs = some (f, r)) :
+    ValidFallback f := by
+  unfold itemFallbackP at h
+  simp only at h
+  split at h
+  · simp at h
+  · split at h
+    · simp at h
+    · rename_i name r2 hn
+      simp only [Option.some.injEq, Prod.mk.injEq] at h
+      obtain ⟨rfl, _⟩ := h
+      have hp := preludeP_valid true true false fuel cs
+      exact ⟨preComments_valid hp, preDocs_valid hp, fallbackTailP_valid hn⟩
+
+theorem serviceFallbackOptP_valid (fuel : Nat) (cs : Str) :
+    (∀ f, (serviceFallbackOptP fuel cs).1.1 = some f → ValidFallback f) ∧
+    (∀ f, (serviceFallbackOptP fuel cs).1.2 = some f → ValidFallback f) := by
+  unfold serviceFallbackOptP
+  split
+  · rename_i x r hx
+    unfold serviceFallbackP at hx
+    split at hx
+    · rename_i f r1 hf
+      simp only [Option.some.injEq, Prod.mk.injEq] at hx
+      obtain ⟨rfl, _⟩ := hx
+      refine ⟨?_, optP_valid (fun _ _ _ hh => itemFallbackP_valid hh) _⟩
+      intro g hg
+      simp only [Option.some.injEq] at hg
+      subst hg
+      exact itemFallbackP_valid hf
+    · split at hx
+      · rename_i e r1 he
+        simp only [Option.some.injEq, Prod.mk.injEq] at hx
+        obtain ⟨rfl, _⟩ := hx
+        refine ⟨optP_valid (fun _ _ _ hh => itemFallbackP_valid hh) _, ?_⟩
+        intro g hg
+        simp only [Option.some.injEq] at hg
+        subst hg
+        exact itemFallbackP_valid he
+      · simp at hx
+  · simp
+
+theorem kwEqLitP_valid {k : Str} {lit : P Str} {Q : Str → Prop} (hlit : ∀ cs v r, lit cs = some (v, r) → Q v)
+    {fuel : Nat} {cs r : Str} {c : List Line} {v : Str} (h : kwEqLitP k lit fuel cs = some ((c, v), r)) :
+    ValidLines 2 c ∧ Q v := by
+  unfold kwEqLitP at h
+  simp only at h
+  repeat' split at h
+  all_goals (try (simp at h; done))
+  simp only [Option.some.injEq, Prod.mk.injEq] at h
+  obtain ⟨⟨rfl, rfl⟩, _⟩ := h
+  exact ⟨preComments_valid (preludeP_valid true false false fuel cs), hlit _ _ _ (by assumption)⟩
+
+theorem serviceDefP_valid {fuel : Nat} {cs r : Str} {d : ServiceDef} (h : serviceDefP fuel cs = some (d, r)) : ValidService d := by
+  unfold serviceDefP at h
+  simp only at h
+  split at h
+  · simp at h
+  · rename_i name r1 hn
+    split at h
+    · simp at h
+    · rename_i uc uuid r2 hu
+      split at h
+      · simp at h
+      · rename_i vc ver r3 hv
+        split at h
+        · simp at h
+        · rename_i items ff ef r4 hb
+          simp only [Option.some.injEq, Prod.mk.injEq] at h
+          obtain ⟨rfl, _⟩ := h
+          have hp := preludeP_valid true true false fuel cs
+          obtain ⟨huc, huu⟩ := kwEqLitP_valid (Q := ValidUuid) (fun _ _ _ hh => litUuidP_valid hh) hu
+          obtain ⟨hvc, hvv⟩ := kwEqLitP_valid (Q := ValidInt) (fun _ _ _ hh => litIntP_valid hh) hv
+          unfold serviceBodyP at hb
+          simp only at hb
+          split at hb
+          · simp at hb
+          · simp only [Option.some.injEq, Prod.mk.injEq] at hb
+            obtain ⟨⟨rfl, rfl, rfl⟩, _⟩ := hb
+            obtain ⟨hff, hef⟩ := serviceFallbackOptP_valid fuel (skipWs (many (serviceItemP fuel) fuel r3).2)
+            exact ⟨preComments_valid hp, preDocs_valid hp, defOpenP_valid hn, huc, huu, hvc, hvv,
+              many_forall _ ValidItem (fun _ _ _ hh => serviceItemP_valid hh) _ _, hff, hef⟩
+
+
+/-! ### consts, newtypes, imports, the file -/
+
+theorem parenP_valid {lit : P Str} {Q : Str → Prop} (hlit : ∀ cs v r, lit cs = some (v, r) → Q v) {cs r v : Str}
+    (h : parenP lit cs = some (v, r)) : Q v := by
+  unfold parenP at h
+  repeat' split at h
+  all_goals (try (simp at h; done))
+  simp only [Option.some.injEq, Prod.mk.injEq] at h
+  obtain ⟨rfl, _⟩ := h
+  exact hlit _ _ _ (by assumption)
+
+theorem firstPrim_mem {ps : List Prim} {cs r : Str} {p : Prim} (h : firstPrim ps cs = some (p, r)) : p ∈ ps := by
+  induction ps with
+  | nil => simp [firstPrim] at h
+  | cons q ps ih =>
+    unfold firstPrim at h
+    split at h
+    · simp only [Option.some.injEq, Prod.mk.injEq] at h
+      obtain ⟨rfl, _⟩ := h
+      simp
+    · exact List.mem_cons_of_mem _ (ih h)
+
+theorem constValueP_valid {cs r v : Str} {k : Prim} (h : constValueP cs = some ((k, v), r)) :
+    (k ∈ constKinds ∧ ValidInt v) ∨ (k = .string ∧ ValidLitString v) ∨ (k = .uuid ∧ ValidUuid v) := by
+  unfold constValueP at h
+  split at h
+  · rename_i x hx
+    simp only [Option.some.injEq] at h
+    subst h
+    unfold constIntP at hx
+    split at hx
+    · simp at hx
+    · rename_i k' r1 hk
+      split at hx
+      · simp at hx
+      · rename_i v' r2 hv
+        simp only [Option.some.injEq, Prod.mk.injEq] at hx
+        obtain ⟨⟨rfl, rfl⟩, _⟩ := hx
+        exact Or.inl ⟨firstPrim_mem hk, parenP_valid (Q := ValidInt) (fun _ _ _ hh => litIntP_valid hh) hv⟩
+  · split at h
+    · rename_i x hx
+      simp only [Option.some.injEq] at h
+      subst h
+      unfold constKwP at hx
+      split at hx
+      · simp at hx
+      · split at hx
+        · simp at hx
+        · rename_i v' r2 hv
+          simp only [Option.some.injEq, Prod.mk.injEq] at hx
+          obtain ⟨⟨rfl, rfl⟩, _⟩ := hx
+          exact Or.inr (Or.inl ⟨rfl, parenP_valid (Q := ValidLitString) (fun _ _ _ hh => litStringP_valid hh) hv⟩)
+    · unfold constKwP at h
+      split at h
+      · simp at h
+      · split at h
+        · simp at h
+        · rename_i v' r2 hv
+          simp only [Option.some.injEq, Prod.mk.injEq] at h
+          obtain ⟨⟨rfl, rfl⟩, _⟩ := h
+          exact Or.inr (Or.inr ⟨rfl, parenP_valid (Q := ValidUuid) (fun _ _ _ hh => litUuidP_valid hh) hv⟩)
+
+theorem nameEqP_valid {k : Str} {cs r name : Str} (h : nameEqP k cs = some (name, r)) : ValidIdent name := by
+  unfold nameEqP at h
+  split at h
+  · simp at h
+  · rename_i n r1 hn
+    split at h
+    · simp at h
+    · simp only [Option.some.injEq, Prod.mk.injEq] at h
+      obtain ⟨rfl, _⟩ := h
+      exact headerP_valid hn
+
+theorem constDefP_valid {fuel : Nat} {cs r : Str} {d : ConstDef} (h : constDefP fuel cs = some (d, r)) : ValidConst d := by
+  unfold constDefP at h
+  simp only at h
+  split at h
+  · simp at h
+  · rename_i name r1 hn
+    split at h
+    · simp at h
+    · rename_i k v r2 hv
+      split at h
+      · simp at h
+      · simp only [Option.some.injEq, Prod.mk.injEq] at h
+        obtain ⟨rfl, _⟩ := h
+        have hp := preludeP_valid true true false fuel cs
+        exact ⟨preComments_valid hp, preDocs_valid hp, nameEqP_valid hn, constValueP_valid hv⟩
+
+theorem newtypeDefP_valid {fuel : Nat} {cs r : Str} {d : NewtypeDef} (h : newtypeDefP fuel cs = some (d, r)) : ValidNewtype d := by
+  unfold newtypeDefP at h
+  simp only at h
+  split at h
+  · simp at h
+  · rename_i name r1 hn
+    split at h
+    · simp at h
+    · rename_i t r2 ht
+      simp only [Option.some.injEq, Prod.mk.injEq] at h
+      obtain ⟨rfl, _⟩ := h
+      have hp := preludeP_valid true true true fuel cs
+      exact ⟨preComments_valid hp, preDocs_valid hp, preAttrs_valid hp, nameEqP_valid hn, typeTermP_valid ht⟩
+
+theorem defP_valid {fuel : Nat} {cs r : Str} {d : Definition} (h : defP fuel cs = some (d, r)) : ValidDef d := by
+  unfold defP at h
+  split at h
+  · rename_i x r1 hx
+    simp only [Option.some.injEq, Prod.mk.injEq] at h
+    obtain ⟨rfl, _⟩ := h
+    exact structDefP_valid hx
+  · split at h
+    · rename_i x r1 hx
+      simp only [Option.some.injEq, Prod.mk.injEq] at h
+      obtain ⟨rfl, _⟩ := h
+      exact enumDefP_valid hx
+    · split at h
+      · rename_i x r1 hx
+        simp only [Option.some.injEq, Prod.mk.injEq] at h
+        obtain ⟨rfl, _⟩ := h
+        exact serviceDefP_valid hx
+      · split at h
+        · rename_i x r1 hx
+          simp only [Option.some.injEq, Prod.mk.injEq] at h
+          obtain ⟨rfl, _⟩ := h
+          exact constDefP_valid hx
+        · simp only [Option.map_eq_some_iff] at h
+          obtain ⟨⟨x, r'⟩, hx, heq⟩ := h
+          simp only [Prod.mk.injEq] at heq
+          obtain ⟨rfl, _⟩ := heq
+          exact newtypeDefP_valid hx
+
+theorem importP_valid {fuel : Nat} {cs r : Str} {i : Import} (h : importP fuel cs = some (i, r)) : ValidImport i := by
+  unfold importP at h
+  simp only at h
+  split at h
+  · simp at h
+  · rename_i name r1 hn
+    split at h
+    · simp at h
+    · simp only [Option.some.injEq, Prod.mk.injEq] at h
+      obtain ⟨rfl, _⟩ := h
+      exact ⟨preComments_valid (preludeP_valid true false false fuel cs), headerP_valid hn⟩
+
+theorem fileGroupP_valid {fuel : Nat} {cs r : Str} {g : List Line × Line} (h : fileGroupP fuel cs = some (g, r)) :
+    ValidLines 2 g.1 ∧ '\n' ∉ inner 3 g.2 := by
+  unfold fileGroupP at h
+  split at h
+  · simp at h
+  · rename_i d r1 hd
+    simp only [Option.some.injEq, Prod.mk.injEq] at h
+    obtain ⟨rfl, _⟩ := h
+    exact ⟨many_forall commentP (fun l => '\n' ∉ inner 2 l) (fun _ _ _ hh => commentP_valid hh) _ _, docInlineP_valid hd⟩
+
+/-- Everything the grammar accepts is well formed in the sense of the round-trip theorem. -/
+theorem fileP_valid {fuel : Nat} {cs : Str} {s : Schema} (h : fileP fuel cs = some s) : ValidSchema s := by
+  unfold fileP at h
+  simp only at h
+  split at h
+  · simp only [Option.some.injEq] at h
+    subst h
+    have hg := many_forall (fileGroupP fuel) (fun g => ValidLines 2 g.1 ∧ '\n' ∉ inner 3 g.2)
+      (fun _ _ _ hh => fileGroupP_valid hh) fuel (skipWs cs)
+    refine ⟨?_, ?_, ?_, ?_, ?_⟩
+    · intro l hl
+      simp only [List.mem_flatten, List.mem_map] at hl
+      obtain ⟨ls, ⟨g, hgm, rfl⟩, hl⟩ := hl
+      exact (hg g hgm).1 l hl
+    · intro l hl
+      simp only [List.mem_map] at hl
+      obtain ⟨g, hgm, rfl⟩ := hl
+      exact (hg g hgm).2
+    · intro hd
+      simp only [List.map_eq_nil_iff] at hd
+      simp [hd]
+    · exact many_forall _ ValidImport (fun _ _ _ hh => importP_valid hh) _ _
+    · exact many_forall _ ValidDef (fun _ _ _ hh => defP_valid hh) _ _
+  · simp at h
+
+theorem parseSchema_valid {src : Str} {s : Schema} (h : parseSchema src = some s) : ValidSchema s := fileP_valid h
+
 end Aldrin.Schema
